@@ -34,7 +34,10 @@ def casing(name, rng):
     return "".join(ch.upper() if rng.random() < 0.5 else ch for ch in name)
 
 
-def concretize(prog, cmds, seed, trigger=TRIGGER, vary_case=True, layout=None):
+TRIGGER_2W = ":param **kwargs:"     # a trigger of two words (the InputSettings default), used on the settings-file route
+
+
+def concretize(prog, cmds, seed, trigger=TRIGGER, vary_case=True, layout=None, decoy=None):
     """prog: list of {"ci": int (1-based), "d": bool}; cmds: list of command records.
     Returns (text, meta) where meta[i] = dict(actual command name, lower-cased) per source index (1-based)."""
     rng = random.Random(seed)
@@ -54,6 +57,8 @@ def concretize(prog, cmds, seed, trigger=TRIGGER, vary_case=True, layout=None):
                 lines.append("%s opts: options w%d" % (trigger, i))
             elif rng.random() < 0.06:
                 lines = []                             # an empty doccomment is still a doccomment
+            elif decoy:
+                lines.append(decoy)                    # shares words with the trigger string without containing it
             if c["k"] in ("cpp_member", "cpp_constructor"):
                 lines.append(":param bb: a hand-written field for a name that only begins like a parameter")
             out.append(ind + "#[[[")
@@ -126,6 +131,38 @@ def run_real(src, settings, title="t", module="t"):
         return "ok", text, d.aggregator, err.getvalue()
     except BaseException as e:  # SystemExit included: an observation, not a machinery failure
         return "exc", "%s: %s" % (type(e).__name__, str(e)[:200]), None, err.getvalue()
+
+
+def run_via_main(src, inc, pats, trigger):
+    """The same program through the command line: file t.cmake, the settings in a YAML file given with -s, page read
+    back from the output directory.  Everything the settings-file route adds (template validation, Settings
+    construction in main) is thereby part of what is observed."""
+    import shutil
+    import yaml
+    import naming
+    import lib
+    base = tempfile.mkdtemp(prefix="viamain_", dir=os.path.dirname(_tmpfile()))
+    try:
+        os.makedirs(os.path.join(base, "home", ".config", "cminx"))
+        with open(os.path.join(base, "t.cmake"), "w", encoding="utf-8") as fh:
+            fh.write(src)
+        pat = "^" + PREFIX
+        pats = pats or {}
+        inp = {"include_undocumented_" + f: bool(v) for f, v in (inc or {}).items()}
+        inp.update({"kwargs_doc_trigger_string": trigger,
+                    "function_parameter_name_strip_regex": pat if pats.get("f") else "",
+                    "macro_parameter_name_strip_regex": pat if pats.get("m") else "",
+                    "member_parameter_name_strip_regex": pat if pats.get("x") else ""})
+        dflt = yaml.safe_load(open(os.path.join(lib.CMINX_SRC, "cminx", "config_default.yaml")))
+        with open(os.path.join(base, "s.yaml"), "w") as fh:
+            yaml.safe_dump({"input": inp, "logging": dflt["logging"]}, fh)
+        exc, _ = naming.run_main(["-s", "s.yaml", "-o", "out", "t.cmake"], base, os.path.join(base, "home"))
+        page = os.path.join(base, "out", "t.rst")
+        if exc or not os.path.exists(page):
+            return "exc", exc or "no page written", None, ""
+        return "ok", open(page, encoding="utf-8").read(), None, ""
+    finally:
+        shutil.rmtree(base, ignore_errors=True)
 
 
 # ---------------------------------------------------------------- page -> views
@@ -307,7 +344,9 @@ def proj_c03(views):
 
 def _mv(m, with_doc_fields=True):
     # the field the concretiser writes into member doccomments (":param bb:") is doc text, not a generated field
-    return [m["dir"], m["arg"], m["macro"], [f for f in m["fields"] if f[0] != "param bb"], m["options"]]
+    # (so is the trigger line ":keyword opts:" / ":param **kwargs:" of a doccomment that carries the kwargs trigger)
+    return [m["dir"], m["arg"], m["macro"],
+            [f for f in m["fields"] if f[0] not in ("param bb", "keyword opts", "param **kwargs", "param zz")], m["options"]]
 
 
 def proj_c09(views):
